@@ -225,6 +225,38 @@ ARANK_BASE = EXTERN_BASE.replace("int top_count(int n)", "int top_count(double *
 CALLB_BASE = EXTERN_BASE.replace("int top_count(int n)", "int top_count(int (*incr)(int), int n)").replace(
     "double scale(double x, int n)", "double scale(double (*weigh)(double, int), int n)").replace(
     "int depth(int n)", "int depth(void (*visit)(int, int))").replace("int inside(int n)", "int inside(int (*pick)(int), int n)")
+# (1i) data members of a class (scalars, pointers with a dimension, strings), also grouped by a block: the getters and setters
+# Python gets for them follow the member's own options like a method follows its own
+MEMBER_BASE = """\
+library: members
+cxx_header: members.hpp
+options:
+  wrap_python: true
+  wrap_lua: false
+declarations:
+- decl: class Samples
+  declarations:
+  - decl: Samples()
+  - decl: int nitems +readonly
+  - decl: double *values +dimension(nitems)
+  - decl: void scale(double *factors +intent(in)+rank(1), int n +implied(size(factors)))
+  - block: true
+    declarations:
+    - decl: int *counts +dimension(nitems)
+    - decl: double ratio
+    - decl: int sum(int *terms +intent(in)+rank(1), int n +implied(size(terms)))
+- decl: namespace outer
+  declarations:
+  - decl: class Inner
+    declarations:
+    - decl: Inner()
+    - decl: float *weights +dimension(3)
+    - decl: double total
+"""
+MEMBER_CONTAINERS = {"library": (), "class": ("declarations", 0), "block-in-class": ("declarations", 0, "declarations", 4), "namespace": ("declarations", 1),
+                     "class-in-namespace": ("declarations", 1, "declarations", 0)}
+MEMBER_SETTINGS = [("PY_array_arg", "list"), ("PY_member_getter_template", "{PY_prefix}{cxx_class}_{variable_name}_zget"),
+                   ("PY_member_setter_template", "{PY_prefix}{cxx_class}_{variable_name}_zset"), ("debug", True)]
 # (1h) a struct and the functions that take it: PY_struct_arg stated on the library == stated on the struct and on every function
 STRUCT_ARG_BASE = """\
 library: sarg
@@ -328,7 +360,7 @@ def compare_case(args):
     shutil.rmtree(workdir, ignore_errors=True)
     if ra.status != "ok" or rb.status != "ok":
         if ra.status == rb.status == "diagnostic":
-            return (label, "both-rejected", None)
+            return (label, "both-rejected", "%s: %s" % (ra.exc, (ra.msg or "").strip().split("\n")[-1][:160]))
         return (label, "bad", "generation: first %s %s %s / second %s %s %s" % (
             ra.status, ra.exc, (ra.msg or "")[:150], rb.status, rb.exc, (rb.msg or "")[:150]))
     if only:
@@ -352,6 +384,10 @@ ATTR_CASES = [
     ("arg", "void f(int *a +intent(in))", "void f(int *a)", {"attrs": {"a": {"intent": "in"}}}),
     ("arg", "void f(int *a +intent(out))", "void f(int *a)", {"attrs": {"a": {"intent": "out"}}}),
     ("arg", "void f(int *a +intent(inout))", "void f(int *a)", {"attrs": {"a": {"intent": "inout"}}}),
+    ("arg", "void f(int *a +intent(IN))", "void f(int *a)", {"attrs": {"a": {"intent": "IN"}}}),
+    ("arg", "void f(int *a +intent(OUT))", "void f(int *a)", {"attrs": {"a": {"intent": "OUT"}}}),
+    ("arg", "void f(int *a +intent(INOUT))", "void f(int *a)", {"attrs": {"a": {"intent": "INOUT"}}}),
+    ("arg", "void f(const char *s +intent(IN), char *t +intent(Out)+charlen(8))", "void f(const char *s, char *t +charlen(8))", {"attrs": {"s": {"intent": "IN"}, "t": {"intent": "Out"}}}),
     ("arg", "void f(double *v +rank(1))", "void f(double *v)", {"attrs": {"v": {"rank": 1}}}),
     ("arg", "void f(double *v +rank(2)+intent(in))", "void f(double *v)", {"attrs": {"v": {"rank": 2, "intent": "in"}}}),
     ("arg", "void f(double *v +dimension(n), int n)", "void f(double *v, int n)", {"attrs": {"v": {"dimension": "n"}}}),
@@ -376,9 +412,11 @@ ATTR_CASES = [
 ]
 
 
-def attr_desc(decl, extra=None):
+def attr_desc(decl, extra=None, debug=False):
     d = {"library": "Attr", "cxx_header": "attr.hpp", "options": {"wrap_python": True, "wrap_lua": True, "PY_array_arg": "list"},
          "declarations": [dict({"decl": decl}, **(extra or {})), {"decl": "int sibling(int x)"}]}
+    if debug:
+        d["options"]["debug"] = True  # the wrappers then carry what was recorded for each argument as comments
     return d
 
 
@@ -509,7 +547,14 @@ def run(ctx):
         for container in CONTAINERS:
             if container not in ONLY_ON.get(name, CONTAINERS):
                 continue
-            a, b = placement_pair(base, kind, name, value, container)
+            pbase = base
+            if name in ("F_create_bufferify_function", "F_string_len_trim"):
+                # a vector argument cannot be wrapped without the bufferify function (shroud says so and stops): the relation is
+                # decided on the description without that one method
+                pbase = copy.deepcopy(base)
+                blockdecls = node_at(pbase, CONTAINERS["block-in-class"])["declarations"]
+                blockdecls[:] = [d for d in blockdecls if "std::vector" not in d["decl"]]
+            a, b = placement_pair(pbase, kind, name, value, container)
             add(("placement", kind, name, container), a, b, comment_only=name in COMMENT_ONLY)
     base_c = yaml.safe_load(BASE_C)
     for kind, name, value in settings:
@@ -548,6 +593,14 @@ def run(ctx):
             for dnode in ([x for x in node_at(b, path)["declarations"] if "decl" in x] + ([y for x in node_at(b, path)["declarations"] if "block" in x for y in x["declarations"]] if container == "library" else [])):
                 dnode.setdefault("options", {})["PY_struct_arg"] = sval
             add(("placement", "options", "PY_struct_arg=" + sval, "struct-" + container), a, b)
+    mbase = yaml.safe_load(MEMBER_BASE)
+    for oname, oval in MEMBER_SETTINGS:
+        for container in MEMBER_CONTAINERS:
+            a, b = placement_pair(mbase, "options", oname, oval, container, MEMBER_CONTAINERS)
+            add(("placement", "options", oname, "member-" + container), a, b, comment_only=oname in COMMENT_ONLY)
+            if oname != "debug":
+                k[0] += 1
+                jobs.append((os.path.join(wd, "j%d" % k[0]), ("enum-setting-acts", oname, oval, "member-" + container), a, mbase, [], [], False, None, "differ"))
     abase = yaml.safe_load(ARANK_BASE)
     for oname, oval in (("F_assumed_rank_max", 2), ("F_assumed_rank_min", 1)):
         for container in EXTERN_CONTAINERS:
@@ -584,10 +637,25 @@ def run(ctx):
         k[0] += 1
         jobs.append((os.path.join(wd, "j%d" % k[0]), ("template-sibling", name), with_opts("<int>"), with_opts(None), [], [], name in COMMENT_ONLY, "Box_double"))
         add(("template-each", name), with_opts("each"), with_opts("class"), comment_only=name in COMMENT_ONLY)
+    # (1b2) a block: inside a class template groups methods like anywhere else: what the block sets reaches every instantiation
+    tblk = copy.deepcopy(tbase)
+    tmeth = tblk["declarations"][0]["declarations"]
+    tblk["declarations"][0]["declarations"] = tmeth[:2] + [{"block": True, "declarations": [tmeth[2], {"block": True, "declarations": [tmeth[3]]}]}, tmeth[4]]
+    TB = {"template-block": ("declarations", 0, "declarations", 2), "template-inner-block": ("declarations", 0, "declarations", 2, "declarations", 1)}
+    for kind, name, value in settings + [("options", "wrap_fortran", False), ("options", "wrap_c", False)]:
+        if name in ("F_name_generic_template", "PY_array_arg", "PY_name_impl_template", "LUA_name_template"):
+            continue
+        for container in TB:
+            a, b = placement_pair(tblk, kind, name, value, container, TB)
+            add(("placement", kind, name, container), a, b, comment_only=name in COMMENT_ONLY)
+            if name in ("C_this", "wrap_fortran", "wrap_c", "F_C_name_template", "C_name_template"):
+                k[0] += 1
+                jobs.append((os.path.join(wd, "j%d" % k[0]), ("enum-setting-acts", name, value, container), a, tblk, [], [], False, None, "differ"))
     # sibling unaffected: setting on one container leaves functions outside it byte-identical is implied by (1) both ways
     # (2)
     for site, inline, plain, extra in ATTR_CASES:
         add(("attribute", site, inline), attr_desc(inline), attr_desc(plain, extra))
+        add(("attribute", site + "+debug", inline), attr_desc(inline, debug=True), attr_desc(plain, extra, debug=True))
         # the same on declarations from which further functions are derived: fortran_generic variants, default-argument variants
         if site == "arg" and inline.endswith(")") and plain.endswith(")") and "std::vector" not in inline and "void *p" not in inline:
             gen = {"fortran_generic": [{"decl": "(float scale)"}, {"decl": "(double scale)"}]}
@@ -670,10 +738,13 @@ def run(ctx):
     res = isolate.pmap(compare_case, jobs, W)
     res += isolate.pmap(create_wrapper_case, [(os.path.join(wd, "cw%d" % i), t) for i, t in enumerate((BASE, CLI_BASE, BLOCK_BASE, BASE_C, WRAP_BASE, TEMPLATE_BASE, libs.SMALL_C, libs.OTHER_CXX))], W)
     parts = {}
+    rejected = []
     for label, st, info in res:
         kind = label[0] if isinstance(label, tuple) else label
         parts[kind] = parts.get(kind, 0) + 1
         ctx.outcome("%s %s" % (kind, st))
+        if st == "both-rejected":
+            rejected.append((label, info))
         if st == "bad":
             if kind == "placement":
                 key = "placement %s.%s@%s" % (label[1], label[2], label[3])
@@ -699,7 +770,7 @@ def run(ctx):
             elif kind == "enum-setting-acts":
                 key = "enum-setting-acts %s=%s@%s" % label[1:4]
                 what = ("option %s=%s on the %s: %s" % (label[1], label[2], label[3][len("arank-"):], info)) if str(label[3]).startswith("arank-") else (
-                    "option %s=%s on the enum declaration (%s scope): %s" % (label[1:4] + (info,)))
+                    "option %s=%s on the declaration (%s scope): %s" % (label[1:4] + (info,)))
             elif kind == "blocks":
                 key = "blocks %s" % label[1]
                 what = "grouping %s into empty blocks changes the output:\n%s" % (label[1], info)
@@ -710,6 +781,9 @@ def run(ctx):
     ctx.count(states=len(res), transitions=2 * len(res), validated=len(res))
     ctx.nontrivial_n(len(res))
     ctx.part("relations", **parts)
+    for label, info in rejected:
+        # every description of the alphabet is one shroud accepts: a pair it rejects twice decides nothing
+        ctx.violation("undecided %s" % (label,), "both descriptions of the pair %s are rejected (%s): the relation could not be compared" % (label, info), {"label": label})
     ctx.part("placement", settings=len(settings), containers=list(CONTAINERS))
     ctx.sample({"relation": "placement", "setting": "options.F_force_wrapper=true", "container": "class"})
     ctx.sample({"relation": "attribute", "inline": ATTR_CASES[5][1], "attrs": ATTR_CASES[5][3]})
